@@ -308,6 +308,18 @@ static int check_rt(const char* name, const void* cbuf, size_t csize, const void
     return 0;
 }
 
+/* round 3 */
+/* probes that must be harmless on a context whose last operation failed (before any reset) */
+static void probe_cctx(ZSTD_CCtx* c) {
+    if (!c) return;
+    {   size_t const s = ZSTD_sizeof_CCtx(c); ZSTD_frameProgression const fp = ZSTD_getFrameProgression(c); size_t const tf = ZSTD_toFlushNow(c);
+        if (s < sizeof(void*) || ZSTD_isError(s)) violation("sizeof-after-failure", "sizeof_CCtx"); (void)fp; (void)tf; }
+}
+static void probe_dctx(ZSTD_DCtx* d) {
+    if (!d) return;
+    {   size_t const s = ZSTD_sizeof_DCtx(d); if (s < sizeof(void*) || ZSTD_isError(s)) violation("sizeof-after-failure", "sizeof_DCtx"); }
+}
+
 /* ---- generic retried operations on a CCtx / DCtx */
 static int op_compress2(const char* name, ZSTD_CCtx* c, const void* src, size_t n, const void* dict, size_t dictSize) {
     int t;
@@ -315,6 +327,7 @@ static int op_compress2(const char* name, ZSTD_CCtx* c, const void* src, size_t 
         int nf0 = g_nfailed; size_t r; beg("compress", -1, -1); r = ZSTD_compress2(c, g_scratch, g_scratchCap, src, n);
         judge(name, ZSTD_isError(r), ZSTD_isError(r) ? r : 0, nf0, t);
         if (!ZSTD_isError(r)) { check_rt(name, g_scratch, r, src, n, dict, dictSize); return 0; }
+        probe_cctx(c);
         {   size_t rr; beg("CCtx_reset", -1, -1); rr = ZSTD_CCtx_reset(c, ZSTD_reset_session_only); endc(ZSTD_isError(rr) ? "E" : "ok"); if (ZSTD_isError(rr)) violation("reset-failed", name); }
     }
     if (!g_single) violation("not-reusable-after-reset", name);
@@ -344,6 +357,7 @@ static int op_cstream(const char* name, ZSTD_CCtx* c, const void* src, size_t n,
 done:
         judge(name, ZSTD_isError(r), ZSTD_isError(r) ? r : 0, nf0, t);
         if (!ZSTD_isError(r)) { check_rt(name, g_scratch, op, src, n, NULL, 0); return 0; }
+        probe_cctx(c);
         {   size_t rr; beg("CCtx_reset", -1, -1); rr = ZSTD_CCtx_reset(c, ZSTD_reset_session_only); endc(ZSTD_isError(rr) ? "E" : "ok"); if (ZSTD_isError(rr)) violation("reset-failed", name); }
     }
     if (!g_single) violation("not-reusable-after-reset", name);
@@ -380,6 +394,7 @@ done:
             if (r != 0 || op != en || memcmp(out, expect, en)) violation("decoded-output-mismatch", name);
             return 0;
         }
+        probe_dctx(d);
         {   size_t rr; beg("DCtx_reset", -1, -1); rr = ZSTD_DCtx_reset(d, ZSTD_reset_session_only); endc(ZSTD_isError(rr) ? "E" : "ok"); if (ZSTD_isError(rr)) violation("reset-failed", name); }
     }
     if (!g_single) violation("not-reusable-after-reset", name);
@@ -1050,17 +1065,6 @@ static void sc_seekable(int v) {
 
 /* ------------------------------------------------------------------ round 3: second doors */
 
-/* probes that must be harmless on a context whose last operation failed (before any reset) */
-static void probe_cctx(ZSTD_CCtx* c) {
-    if (!c) return;
-    {   size_t const s = ZSTD_sizeof_CCtx(c); ZSTD_frameProgression const fp = ZSTD_getFrameProgression(c); size_t const tf = ZSTD_toFlushNow(c);
-        if (s < sizeof(void*) || ZSTD_isError(s)) violation("sizeof-after-failure", "sizeof_CCtx"); (void)fp; (void)tf; }
-}
-static void probe_dctx(ZSTD_DCtx* d) {
-    if (!d) return;
-    {   size_t const s = ZSTD_sizeof_DCtx(d); if (s < sizeof(void*) || ZSTD_isError(s)) violation("sizeof-after-failure", "sizeof_DCtx"); }
-}
-
 /* v0.4 frames (library built with ZSTD_LEGACY_SUPPORT <= 4; scenarios "leg4_*" are run with that build only):
    v 0: one v0.4 frame streamed twice, then a larger window;  1: v0.4, v0.5, v0.4, v0.7, v0.4 (version switches);  2: one-shot */
 static void sc_legacy4(int v) {
@@ -1233,6 +1237,226 @@ static void sc_train2(int v) {
     violation("training-keeps-failing", names[v]);
 }
 
+
+/* round 3: the other entry points of the compression / decompression API on contexts created with the counting allocator.
+   Every operation is attempted up to MAXTRY times (session reset between attempts), judged, and its result round-trips. */
+#define CTRY(NAME, CALL, ISERR, CODE, AFTER) \
+    { int t_; for (t_ = 0; t_ < MAXTRY; t_++) { int nf0_ = g_nfailed; beg(NAME, -1, -1); CALL; judge(NAME, (ISERR), (CODE), nf0_, t_); if (!(ISERR)) break; AFTER; } \
+      if (t_ == MAXTRY) violation("not-reusable-after-reset", NAME); }
+static size_t stream_old_api(ZSTD_CCtx* c, const char* src, size_t n, size_t* outPos) {
+    ZSTD_inBuffer in = { src, n, 0 }; ZSTD_outBuffer o = { g_scratch, g_scratchCap, 0 }; size_t r = 0;
+    while (in.pos < in.size) { ZSTD_inBuffer i2 = { src, in.pos + 30000 < n ? in.pos + 30000 : n, in.pos }; r = ZSTD_compressStream(c, &o, &i2); if (ZSTD_isError(r)) return r; in.pos = i2.pos;
+        if ((in.pos / 30000) % 3 == 1) { r = ZSTD_flushStream(c, &o); if (ZSTD_isError(r)) return r; } }
+    do { r = ZSTD_endStream(c, &o); if (ZSTD_isError(r)) return r; } while (r != 0);
+    *outPos = o.pos; return 0;
+}
+static size_t h_stable_c2(ZSTD_CCtx* c, const char* src, size_t n, size_t* outPos) {
+    ZSTD_inBuffer in = { src, n, 0 }; ZSTD_outBuffer o = { g_scratch, g_scratchCap, 0 }; size_t const r = ZSTD_compressStream2(c, &o, &in, ZSTD_e_end); *outPos = o.pos; return r;
+}
+static size_t h_stable_out(ZSTD_DCtx* d, char* out, size_t cap) {
+    ZSTD_inBuffer in = { g_fr_small, g_fr_small_n, 0 }; ZSTD_outBuffer o = { out, cap, 0 }; size_t q = 1;
+    while (in.pos < in.size && !ZSTD_isError(q) && q != 0) { ZSTD_inBuffer i2 = { g_fr_small, in.pos + 500 < in.size ? in.pos + 500 : in.size, in.pos }; q = ZSTD_decompressStream(d, &o, &i2); in.pos = i2.pos; }
+    return ZSTD_isError(q) ? q : o.pos;
+}
+static size_t h_simple_args(ZSTD_DCtx* d, char* out, size_t cap) {
+    size_t ipos = 0, opos = 0; size_t const r = ZSTD_decompressStream_simpleArgs(d, out, cap, &opos, g_fr_small, g_fr_small_n, &ipos); return ZSTD_isError(r) ? r : opos;
+}
+static void sc_api_misc(int v) {
+    size_t r = 0; size_t const n = 90000; const char* src = g_src + 100000 + 7 * 600; static char out[100000];
+    if (v == 0) {   /* compression entry points */
+        ZSTD_CCtx* c; ZSTD_CDict* cd; size_t op = 0;
+        mark("create"); c = mk_cctx(); if (!c) return;
+        mark("createCDict"); cd = mk_cdict(0, 4); if (!cd) { fr_cctx(c); return; }
+#define RST { beg("CCtx_reset", -1, -1); ZSTD_CCtx_reset(c, ZSTD_reset_session_only); endc("ok"); }
+        mark("compressCCtx"); CTRY("compressCCtx", r = ZSTD_compressCCtx(c, g_scratch, g_scratchCap, src, n, 3), ZSTD_isError(r), ZSTD_isError(r) ? r : 0, RST);
+        if (!ZSTD_isError(r)) check_rt("compressCCtx", g_scratch, r, src, n, NULL, 0);
+        mark("compress_usingDict"); CTRY("compress_usingDict", r = ZSTD_compress_usingDict(c, g_scratch, g_scratchCap, src, n, g_dict, g_dictSize, 5), ZSTD_isError(r), ZSTD_isError(r) ? r : 0, RST);
+        if (!ZSTD_isError(r)) check_rt("compress_usingDict", g_scratch, r, src, n, g_dict, g_dictSize);
+        mark("compress_usingCDict"); CTRY("compress_usingCDict", r = ZSTD_compress_usingCDict(c, g_scratch, g_scratchCap, src, n, cd), ZSTD_isError(r), ZSTD_isError(r) ? r : 0, RST);
+        if (!ZSTD_isError(r)) check_rt("compress_usingCDict", g_scratch, r, src, n, g_dict, g_dictSize);
+        mark("compress_usingCDict_advanced"); { ZSTD_frameParameters fp = { 1, 1, 0 };
+            CTRY("compress_usingCDict_advanced", r = ZSTD_compress_usingCDict_advanced(c, g_scratch, g_scratchCap, src, 3000, cd, fp), ZSTD_isError(r), ZSTD_isError(r) ? r : 0, RST);
+            if (!ZSTD_isError(r)) check_rt("compress_usingCDict_advanced", g_scratch, r, src, 3000, g_dict, g_dictSize); }
+        mark("compress_advanced"); { ZSTD_parameters pp = ZSTD_getParams(7, n, g_dictSize); pp.fParams.checksumFlag = 1;
+            CTRY("compress_advanced", r = ZSTD_compress_advanced(c, g_scratch, g_scratchCap, src, n, g_dict, g_dictSize, pp), ZSTD_isError(r), ZSTD_isError(r) ? r : 0, RST);
+            if (!ZSTD_isError(r)) check_rt("compress_advanced", g_scratch, r, src, n, g_dict, g_dictSize); }
+        mark("compressBegin_usingCDict");
+        CTRY("compressBegin_usingCDict", r = ZSTD_compressBegin_usingCDict(c, cd), ZSTD_isError(r), ZSTD_isError(r) ? r : 0, RST);
+        if (!ZSTD_isError(r)) { size_t a = ZSTD_compressContinue(c, g_scratch, g_scratchCap, src, 40000), b2 = 0, e = 0;
+            if (!ZSTD_isError(a)) b2 = ZSTD_compressContinue(c, g_scratch + a, g_scratchCap - a, src + 40000, 30000);
+            if (!ZSTD_isError(a) && !ZSTD_isError(b2)) e = ZSTD_compressEnd(c, g_scratch + a + b2, g_scratchCap - a - b2, src + 70000, 20000);
+            if (ZSTD_isError(a) || ZSTD_isError(b2) || ZSTD_isError(e)) violation("block-api-error", "compressBegin_usingCDict"); else check_rt("compressBegin_usingCDict", g_scratch, a + b2 + e, src, n, g_dict, g_dictSize); }
+        mark("compressBegin_advanced"); { ZSTD_parameters pp = ZSTD_getParams(2, 50000, 0);
+            CTRY("compressBegin_advanced", r = ZSTD_compressBegin_advanced(c, NULL, 0, pp, 50000), ZSTD_isError(r), ZSTD_isError(r) ? r : 0, RST);
+            if (!ZSTD_isError(r)) { size_t e = ZSTD_compressEnd(c, g_scratch, g_scratchCap, src, 50000); if (ZSTD_isError(e)) violation("block-api-error", "compressBegin_advanced"); else check_rt("compressBegin_advanced", g_scratch, e, src, 50000, NULL, 0); } }
+        mark("initCStream"); CTRY("initCStream", (r = ZSTD_initCStream(c, 4), r = ZSTD_isError(r) ? r : stream_old_api(c, src, n, &op)), ZSTD_isError(r), ZSTD_isError(r) ? r : 0, RST);
+        if (!ZSTD_isError(r)) check_rt("initCStream", g_scratch, op, src, n, NULL, 0);
+        mark("initCStream_srcSize"); CTRY("initCStream_srcSize", (r = ZSTD_initCStream_srcSize(c, 3, n), r = ZSTD_isError(r) ? r : stream_old_api(c, src, n, &op)), ZSTD_isError(r), ZSTD_isError(r) ? r : 0, RST);
+        if (!ZSTD_isError(r)) check_rt("initCStream_srcSize", g_scratch, op, src, n, NULL, 0);
+        mark("initCStream_usingDict"); CTRY("initCStream_usingDict", (r = ZSTD_initCStream_usingDict(c, g_dict, g_dictSize, 6), r = ZSTD_isError(r) ? r : stream_old_api(c, src, n, &op)), ZSTD_isError(r), ZSTD_isError(r) ? r : 0, RST);
+        if (!ZSTD_isError(r)) check_rt("initCStream_usingDict", g_scratch, op, src, n, g_dict, g_dictSize);
+        mark("resetCStream"); CTRY("resetCStream", (r = ZSTD_resetCStream(c, 0), r = ZSTD_isError(r) ? r : stream_old_api(c, src + 1, 50000, &op)), ZSTD_isError(r), ZSTD_isError(r) ? r : 0, RST);
+        if (!ZSTD_isError(r)) check_rt("resetCStream", g_scratch, op, src + 1, 50000, g_dict, g_dictSize);
+        mark("initCStream_usingCDict"); CTRY("initCStream_usingCDict", (r = ZSTD_initCStream_usingCDict(c, cd), r = ZSTD_isError(r) ? r : stream_old_api(c, src, n, &op)), ZSTD_isError(r), ZSTD_isError(r) ? r : 0, RST);
+        if (!ZSTD_isError(r)) check_rt("initCStream_usingCDict", g_scratch, op, src, n, g_dict, g_dictSize);
+        mark("initCStream_advanced"); { ZSTD_parameters pp = ZSTD_getParams(9, 0, 0); pp.cParams.windowLog = 19;
+            CTRY("initCStream_advanced", (r = ZSTD_initCStream_advanced(c, NULL, 0, pp, ZSTD_CONTENTSIZE_UNKNOWN), r = ZSTD_isError(r) ? r : stream_old_api(c, src, n, &op)), ZSTD_isError(r), ZSTD_isError(r) ? r : 0, RST);
+            if (!ZSTD_isError(r)) check_rt("initCStream_advanced", g_scratch, op, src, n, NULL, 0); }
+        mark("stable-buffers"); { ZSTD_CCtx_reset(c, ZSTD_reset_session_and_parameters); setp(c, ZSTD_c_stableInBuffer, 1); setp(c, ZSTD_c_stableOutBuffer, 1); setp(c, ZSTD_c_compressionLevel, 5);
+            CTRY("compressStream2-stable", r = h_stable_c2(c, src, n, &op), ZSTD_isError(r), ZSTD_isError(r) ? r : 0, RST);
+            if (!ZSTD_isError(r)) check_rt("compressStream2-stable", g_scratch, op, src, n, NULL, 0); }
+#undef RST
+        mark("free"); fr_cctx(c); fr_cdict(cd);
+    } else if (v == 1) {   /* decompression entry points */
+        ZSTD_DCtx* d; ZSTD_DDict* dd;
+        mark("create"); d = mk_dctx(); if (!d) return;
+        mark("createDDict"); dd = mk_ddict(g_dicts[7], 0, 0); if (!dd) { fr_dctx(d); return; }
+#define RSTD { beg("DCtx_reset", -1, -1); ZSTD_DCtx_reset(d, ZSTD_reset_session_only); endc("ok"); }
+        mark("decompress_usingDict"); CTRY("decompress_usingDict", r = ZSTD_decompress_usingDict(d, out, sizeof out, g_fr_dict, g_fr_dict_n, g_dicts[7], g_dictSize), ZSTD_isError(r), ZSTD_isError(r) ? r : 0, RSTD);
+        if (!ZSTD_isError(r) && (r != 4000 || memcmp(out, src, 4000))) violation("decoded-output-mismatch", "decompress_usingDict");
+        mark("decompressBegin_usingDDict"); CTRY("decompressBegin_usingDDict", r = ZSTD_decompressBegin_usingDDict(d, dd), ZSTD_isError(r), ZSTD_isError(r) ? r : 0, RSTD);
+        if (!ZSTD_isError(r)) { size_t ip = 0, opp = 0;
+            for (;;) { size_t const need = ZSTD_nextSrcSizeToDecompress(d); size_t g; if (need == 0) break; if (ip + need > g_fr_dict_n) { violation("bufferless-overrun", "decompressContinue"); break; }
+                g = ZSTD_decompressContinue(d, out + opp, sizeof out - opp, g_fr_dict + ip, need); if (ZSTD_isError(g)) { violation("bufferless-error", "decompressContinue"); break; } ip += need; opp += g; }
+            if (opp != 4000 || memcmp(out, src, 4000)) violation("decoded-output-mismatch", "decompressContinue"); }
+        mark("initDStream_usingDDict"); CTRY("initDStream_usingDDict", r = ZSTD_initDStream_usingDDict(d, dd), ZSTD_isError(r), ZSTD_isError(r) ? r : 0, RSTD);
+        op_dstream("dstream-usingDDict", d, g_fr_dict, g_fr_dict_n, src, 4000, 300, 700);
+        mark("resetDStream"); CTRY("resetDStream", r = ZSTD_resetDStream(d), ZSTD_isError(r), ZSTD_isError(r) ? r : 0, RSTD);
+        op_dstream("dstream-after-resetDStream", d, g_fr_dict, g_fr_dict_n, src, 4000, 5000, 5000);
+        mark("refPrefix"); { static char pfr[20000]; size_t pfn; int sg = g_armed; ZSTD_DCtx_reset(d, ZSTD_reset_session_and_parameters);
+            g_armed = 0; { ZSTD_CCtx* pc = ZSTD_createCCtx(); ZSTD_CCtx_refPrefix(pc, g_src + 2000000, 50000); pfn = ZSTD_compress2(pc, pfr, sizeof pfr, g_src + 2000100, 30000); ZSTD_freeCCtx(pc); } g_armed = sg;
+            if (ZSTD_isError(pfn)) violation("harness-prefix-frame", "refPrefix");
+            CTRY("DCtx_refPrefix", r = ZSTD_DCtx_refPrefix(d, g_src + 2000000, 50000), ZSTD_isError(r), ZSTD_isError(r) ? r : 0, RSTD);
+            g_single = 1; op_dstream("dstream-refPrefix", d, pfr, pfn, g_src + 2000100, 30000, 200, 4096); g_single = 0; }   /* the prefix is single-use */
+        mark("big-window"); op_dstream("dstream-big", d, g_fr_big, g_fr_big_n, g_src + 5000, 300000, 70000, 100000);
+        mark("stableOut"); { size_t rr = ZSTD_DCtx_setParameter(d, ZSTD_d_stableOutBuffer, 1); (void)rr;
+            CTRY("decompressStream-stableOut", r = h_stable_out(d, out, sizeof out), ZSTD_isError(r), ZSTD_isError(r) ? r : 0, RSTD);
+            if (!ZSTD_isError(r) && (r != 3000 || memcmp(out, g_src, 3000))) violation("decoded-output-mismatch", "decompressStream-stableOut");
+            rr = ZSTD_DCtx_setParameter(d, ZSTD_d_stableOutBuffer, 0); (void)rr; }
+        mark("simpleArgs"); CTRY("decompressStream_simpleArgs", r = h_simple_args(d, out, sizeof out), ZSTD_isError(r), ZSTD_isError(r) ? r : 0, RSTD);
+        if (!ZSTD_isError(r) && (r != 3000 || memcmp(out, g_src, 3000))) violation("decoded-output-mismatch", "decompressStream_simpleArgs");
+#undef RSTD
+        mark("free"); fr_dctx(d); fr_ddict(dd, 0);
+    }
+}
+
+
+/* round 3: random histories with a larger operation menu than sc_rand: CDicts (by copy / by reference) attached and detached, shared
+   thread pools referenced / replaced / dropped, ZSTD_copyCCtx from a second context, the single-call and the old streaming entry
+   points, more parameters (overlapLog, targetCBlockSize, rsyncable, row match finder, block splitter), DDict / prefix on the decoder,
+   probes of sizeof / progression after every step.  18 steps drawn from C13_RSEED and the variant; the same sequence for every k */
+static void sc_rand2(int v) {
+    unsigned st = (unsigned)(getenv("C13_RSEED") ? atoi(getenv("C13_RSEED")) : 1) * 104723u + (unsigned)v * 7907u + 91u;
+    ZSTD_CCtx *c, *c2; ZSTD_DCtx* d; ZSTD_CDict *cdA = NULL, *cdB = NULL; ZSTD_DDict* ddA = NULL; ZSTD_threadPool *tpA = NULL, *tpB = NULL;
+    int step; static char* fr; static size_t frcap; size_t frn = 0; const char* frsrc = NULL; size_t frsz = 0;
+    const char* dict = NULL; size_t dictSize = 0; int dictIsPrefix = 0; const char* fdict = NULL; size_t fdictSize = 0; int fdictRaw = 0;
+    int workers = 0, level = 3; size_t r;
+    if (!fr) { frcap = ZSTD_compressBound(1600000) + 64; fr = (char*)__real_malloc(frcap); }
+    mark("create"); c = mk_cctx(); if (!c) return; d = mk_dctx(); if (!d) { fr_cctx(c); return; }
+    c2 = mk_cctx(); if (!c2) { fr_cctx(c); fr_dctx(d); return; }
+    cdA = mk_cdict(0, 3); cdB = mk_cdict(1, 9); ddA = mk_ddict(g_dict, 1, 0);
+    RETRY("createThreadPool", tpA = ZSTD_createThreadPool(2), tpA == NULL, 0); RETRY("createThreadPool", tpB = ZSTD_createThreadPool(4), tpB == NULL, 0);
+    if (!cdA || !cdB || !ddA || !tpA || !tpB) goto out;
+    for (step = 0; step < 18; step++) {
+        unsigned const op = rs_next(&st) % 16;
+        if (op == 0) { static const int lv[] = { 1, 3, 5, 9, 16 }; level = lv[rs_next(&st) % 5]; mark("level"); setp(c, ZSTD_c_compressionLevel, level); }
+        else if (op == 1) { static const int nw[] = { 0, 1, 2, 3 }; static const int ov[] = { 0, 3, 9 }; workers = nw[rs_next(&st) % 4]; mark("workers"); setp(c, ZSTD_c_nbWorkers, workers);
+            if (workers) { setp(c, ZSTD_c_jobSize, (rs_next(&st) & 1) ? (1 << 19) : (1 << 20)); setp(c, ZSTD_c_overlapLog, ov[rs_next(&st) % 3]); } }
+        else if (op == 2) { static const int wl[] = { 0, 18, 21 }; mark("ldm-window"); setp(c, ZSTD_c_enableLongDistanceMatching, (int)(rs_next(&st) & 1)); setp(c, ZSTD_c_windowLog, wl[rs_next(&st) % 3]); setp(c, ZSTD_c_checksumFlag, (int)(rs_next(&st) & 1)); }
+        else if (op == 3) {
+            unsigned const k = rs_next(&st) % 4; int t; mark("dict");
+            if (k == 3) { beg("loadDictionary", 0, -1); r = ZSTD_CCtx_loadDictionary(c, NULL, 0); endc(ZSTD_isError(r) ? "E" : "ok"); dict = NULL; dictSize = 0; dictIsPrefix = 0; }
+            else if (k == 2) { beg("loadDictionary", 0, -1); r = ZSTD_CCtx_loadDictionary(c, NULL, 0); endc(ZSTD_isError(r) ? "E" : "ok"); dict = g_src + 2000000 + (rs_next(&st) % 1000); dictSize = 100000; dictIsPrefix = 1; }
+            else { for (t = 0; t < MAXTRY; t++) { int nf0 = g_nfailed; r = do_load_dict(c, (int)k, g_dict); judge("loadDictionary", ZSTD_isError(r), ZSTD_isError(r) ? r : 0, nf0, t); if (!ZSTD_isError(r)) break; }
+                   dict = g_dict; dictSize = g_dictSize; dictIsPrefix = 0; } }
+        else if (op == 4) { unsigned const k = rs_next(&st) % 3; mark("refCDict"); beg("refCDict", -1, -1); r = ZSTD_CCtx_refCDict(c, k == 0 ? cdA : (k == 1 ? cdB : NULL)); endc(ZSTD_isError(r) ? "E" : "ok");
+            if (ZSTD_isError(r)) violation("refCDict-error", "refCDict"); dictIsPrefix = 0; if (k == 2) { dict = NULL; dictSize = 0; } else { dict = g_dict; dictSize = g_dictSize; } }
+        else if (op == 5) { level = 3; mark("reset-params"); beg("CCtx_reset", -1, -1); r = ZSTD_CCtx_reset(c, ZSTD_reset_session_and_parameters); endc(ZSTD_isError(r) ? "E" : "ok"); dict = NULL; dictSize = 0; dictIsPrefix = 0; workers = 0; }
+        else if (op == 6) { unsigned const k = rs_next(&st) % 3; mark("refThreadPool"); beg("refThreadPool", -1, -1); r = ZSTD_CCtx_refThreadPool(c, k == 0 ? tpA : (k == 1 ? tpB : NULL)); endc(ZSTD_isError(r) ? "E" : "ok");
+            if (ZSTD_isError(r)) violation("refThreadPool-error", "refThreadPool"); }
+        else if (op == 7) { unsigned const k = rs_next(&st) % 4; mark("misc-params");
+            if (k == 0) setp(c, ZSTD_c_targetCBlockSize, (rs_next(&st) & 1) ? 2000 : 0);
+            else if (k == 1) setp(c, ZSTD_c_rsyncable, workers ? (int)(rs_next(&st) & 1) : 0);
+            else if (k == 2) setp(c, ZSTD_c_useRowMatchFinder, (int)(rs_next(&st) % 3));
+            else setp(c, ZSTD_c_useBlockSplitter, (int)(rs_next(&st) % 3)); }
+        else if (op <= 11) {   /* compression through one of five entry points */
+            static const size_t szs[] = { 1000, 30000, 200000, 700000, 1500000 }; size_t n = szs[rs_next(&st) % 5]; const char* src = g_src + (rs_next(&st) % 1000) * 100; int t;
+            unsigned const how = rs_next(&st) % 5; size_t const chunk = 1 + rs_next(&st) % 300000;
+            if (src + n > g_src + 2000000) n = 200000;
+            if (level >= 9 && n > 200000) n = 200000;
+            mark("compress");
+            for (t = 0; t < MAXTRY; t++) {
+                int nf0 = g_nfailed; size_t rr = 0; const char* udict = dict; size_t udictSize = dictSize;
+                if (dictIsPrefix && how <= 2) { beg("refPrefix", -1, -1); rr = ZSTD_CCtx_refPrefix(c, dict, dictSize); endc(ZSTD_isError(rr) ? "E" : "ok"); }
+                beg("compress", (long)how, -1);
+                if (how == 0) rr = ZSTD_compress2(c, fr, frcap, src, n);
+                else if (how == 1) { ZSTD_inBuffer in = { src, n, 0 }; ZSTD_outBuffer o = { fr, frcap, 0 }; int calls = 0;
+                    rr = 0; while (in.pos < n && !ZSTD_isError(rr)) { ZSTD_inBuffer i2 = { src, in.pos + chunk < n ? in.pos + chunk : n, in.pos }; rr = ZSTD_compressStream2(c, &o, &i2, (++calls % 3) ? ZSTD_e_continue : ZSTD_e_flush); in.pos = i2.pos; }
+                    while (!ZSTD_isError(rr)) { ZSTD_inBuffer i0 = { NULL, 0, 0 }; rr = ZSTD_compressStream2(c, &o, &i0, ZSTD_e_end); if (rr == 0) { rr = o.pos; break; } } }
+                else if (how == 2) { ZSTD_inBuffer in = { src, n, 0 }; ZSTD_outBuffer o = { fr, frcap, 0 };
+                    rr = 0; while (in.pos < n && !ZSTD_isError(rr)) { ZSTD_inBuffer i2 = { src, in.pos + chunk < n ? in.pos + chunk : n, in.pos }; rr = ZSTD_compressStream(c, &o, &i2); in.pos = i2.pos; }
+                    while (!ZSTD_isError(rr)) { rr = ZSTD_endStream(c, &o); if (rr == 0) { rr = o.pos; break; } } }
+                else if (how == 3) { rr = ZSTD_compressCCtx(c, fr, frcap, src, n, level > 9 ? 9 : level); udict = NULL; udictSize = 0; }   /* ignores the sticky parameters and dictionaries */
+                else {   /* ZSTD_copyCCtx from the second context, then the frame is completed on this one */
+                    size_t const n2 = n > 200000 ? 200000 : n; rr = ZSTD_compressBegin(c2, level > 9 ? 9 : level);
+                    if (!ZSTD_isError(rr)) rr = ZSTD_copyCCtx(c, c2, n2);
+                    if (!ZSTD_isError(rr)) rr = ZSTD_compressEnd(c, fr, frcap, src, n2);
+                    { size_t const e2 = ZSTD_compressEnd(c2, g_scratch, g_scratchCap, src, ZSTD_isError(rr) ? 0 : 100); (void)e2; }
+                    n = n2; udict = NULL; udictSize = 0; }
+                judge("rand2-compress", ZSTD_isError(rr), ZSTD_isError(rr) ? rr : 0, nf0, t);
+                if (!ZSTD_isError(rr)) { frn = rr; frsrc = src; frsz = n; fdict = udict; fdictSize = udictSize; fdictRaw = (udict != NULL && udict != g_dict); check_rt("rand2-compress", fr, frn, src, n, udict, udictSize); break; }
+                probe_cctx(c);
+                { size_t r2; beg("CCtx_reset", -1, -1); r2 = ZSTD_CCtx_reset(c, ZSTD_reset_session_only); endc(ZSTD_isError(r2) ? "E" : "ok"); beg("CCtx_reset", -1, -1); r2 = ZSTD_CCtx_reset(c2, ZSTD_reset_session_only); endc(ZSTD_isError(r2) ? "E" : "ok"); }
+            }
+            if (t == MAXTRY) violation("not-reusable-after-reset", "rand2-compress");
+        }
+        else if (op <= 14 && frn) {   /* decompression of the last frame: streaming (dictionary loaded / referenced / prefix) or one-shot */
+            size_t const ic = 1 + rs_next(&st) % 70000, oc = 1 + rs_next(&st) % 200000; int t; unsigned const how = rs_next(&st) % 3;
+            mark("decompress");
+            { size_t rr = ZSTD_DCtx_reset(d, ZSTD_reset_session_and_parameters); (void)rr; rr = ZSTD_DCtx_setParameter(d, ZSTD_d_windowLogMax, 27); (void)rr; }
+            if (fdict) { for (t = 0; t < MAXTRY; t++) { int nf0 = g_nfailed; size_t rr; beg("DCtx_dict", (long)how, -1);
+                    if (fdictRaw) rr = (how == 0) ? ZSTD_DCtx_refPrefix(d, fdict, fdictSize) : ZSTD_DCtx_loadDictionary_advanced(d, fdict, fdictSize, how == 1 ? ZSTD_dlm_byRef : ZSTD_dlm_byCopy, ZSTD_dct_rawContent);
+                    else rr = (how == 0) ? ZSTD_DCtx_refDDict(d, ddA) : (how == 1 ? ZSTD_DCtx_loadDictionary(d, fdict, fdictSize) : ZSTD_DCtx_loadDictionary_byReference(d, fdict, fdictSize));
+                    judge("DCtx_dict", ZSTD_isError(rr), ZSTD_isError(rr) ? rr : 0, nf0, t); if (!ZSTD_isError(rr)) break; } }
+            if (fdict && fdictRaw && how == 0) { g_single = 1; op_dstream("rand2-dstream-prefix", d, fr, frn, frsrc, frsz, ic, oc); g_single = 0; }   /* the prefix is single-use */
+            else op_dstream("rand2-dstream", d, fr, frn, frsrc, frsz, ic, oc);
+        }
+        probe_cctx(c); probe_dctx(d);
+    }
+out:
+    mark("free"); fr_cctx(c); fr_cctx(c2); fr_dctx(d); if (cdA) fr_cdict(cdA); if (cdB) fr_cdict(cdB); if (ddA) fr_ddict(ddA, 0);
+    if (tpA) { beg("freeThreadPool", -1, -1); ZSTD_freeThreadPool(tpA); endc(""); } if (tpB) { beg("freeThreadPool", -1, -1); ZSTD_freeThreadPool(tpB); endc(""); }
+}
+
+
+/* one DCtx doing everything AllocBorrow models: dictionary loaded by copy, streamed; three DDicts referenced (the local one is
+   dropped), decoded in one call (the set selects the frame's DDict) and streamed; dictionary loaded by reference (the referenced
+   DDict is dropped, the set stays), streamed; parameter reset; a plain frame streamed */
+static void sc_refddict_full(int v) {
+    ZSTD_DCtx* d; ZSTD_DDict* dds[3]; int i, t; static char out[8192]; const char* src = g_src + 100000 + 7 * 600; size_t r; (void)v;
+    memset(dds, 0, sizeof dds);
+    mark("create"); d = mk_dctx(); if (!d) return;
+    { size_t rr = ZSTD_DCtx_setParameter(d, ZSTD_d_refMultipleDDicts, ZSTD_rmd_refMultipleDDicts); if (ZSTD_isError(rr)) violation("setParameter-error", "refMultipleDDicts"); }
+    mark("ddicts"); for (i = 0; i < 3; i++) { dds[i] = mk_ddict(g_dicts[i == 0 ? 7 : i], i & 1, i); if (!dds[i]) goto out; }
+    mark("load-copy");
+    for (t = 0; t < MAXTRY; t++) { int nf0 = g_nfailed; beg("DCtx_loadDictionary", 0, -1); r = ZSTD_DCtx_loadDictionary(d, g_dicts[7], g_dictSize); judge("DCtx_loadDictionary", ZSTD_isError(r), ZSTD_isError(r) ? r : 0, nf0, t); if (!ZSTD_isError(r)) break; }
+    op_dstream("dstream-local", d, g_fr_dict, g_fr_dict_n, src, 4000, 500, 600);
+    mark("ref");
+    for (i = 2; i >= 0; i--) { for (t = 0; t < MAXTRY; t++) { int nf0 = g_nfailed; beg("refDDict", i, -1); r = ZSTD_DCtx_refDDict(d, dds[i]); judge("refDDict", ZSTD_isError(r), ZSTD_isError(r) ? r : 0, nf0, t); if (!ZSTD_isError(r)) break; } }
+    mark("decompress");
+    { int nf0 = g_nfailed; beg("decompressDCtx", -1, -1); r = ZSTD_decompressDCtx(d, out, sizeof out, g_fr_dict, g_fr_dict_n); judge("decompressDCtx-multi", ZSTD_isError(r), ZSTD_isError(r) ? r : 0, nf0, 0);
+      if (!ZSTD_isError(r) && (r != 4000 || memcmp(out, src, 4000))) violation("decoded-output-mismatch", "decompressDCtx-multi"); }
+    op_dstream("dstream-multi", d, g_fr_dict, g_fr_dict_n, src, 4000, 333, 5000);
+    mark("load-ref");
+    for (t = 0; t < MAXTRY; t++) { int nf0 = g_nfailed; beg("DCtx_loadDictionary", 1, -1); r = ZSTD_DCtx_loadDictionary_byReference(d, g_dicts[7], g_dictSize); judge("DCtx_loadDictionary", ZSTD_isError(r), ZSTD_isError(r) ? r : 0, nf0, t); if (!ZSTD_isError(r)) break; }
+    op_dstream("dstream-local-ref", d, g_fr_dict, g_fr_dict_n, src, 4000, 5000, 5000);
+    mark("big"); op_dstream("dstream-big", d, g_fr_big, g_fr_big_n, g_src + 5000, 300000, 50000, 400000);
+    mark("reset-params"); { size_t rr; beg("DCtx_reset_params", -1, -1); rr = ZSTD_DCtx_reset(d, ZSTD_reset_session_and_parameters); endc(ZSTD_isError(rr) ? "E" : "ok"); }
+    op_dstream("dstream-plain", d, g_fr_small, g_fr_small_n, g_src, 3000, 4096, 100000);
+out:
+    mark("free"); fr_dctx(d); for (i = 0; i < 3; i++) if (dds[i]) fr_ddict(dds[i], i);
+}
+
 static const scen_t g_scen[] = {
     { "cctx_create", sc_cctx_create, 0, 0 },
     { "cctx_params", sc_cctx_params, 0, 0 },
@@ -1272,10 +1496,12 @@ static const scen_t g_scen[] = {
     /* round 3 */
     { "leg4_v04", sc_legacy4, 0, 0 }, { "leg4_versions", sc_legacy4, 1, 0 }, { "leg4_oneshot", sc_legacy4, 2, 0 },
     { "refddict_fail_first", sc_refddict_fail, 0, 0 }, { "refddict_fail_expand", sc_refddict_fail, 1, 0 }, { "refddict_fail_first_free", sc_refddict_fail, 2, 0 }, { "refddict_fail_expand_free", sc_refddict_fail, 3, 0 },
-    { "refddict_reset_multi", sc_dctx_reset_multi, 0, 0 },
+    { "refddict_reset_multi", sc_dctx_reset_multi, 0, 0 }, { "refddict_full", sc_refddict_full, 0, 0 },
     { "mt3_refpool", sc_mt3_refpool, 0, 0 }, { "mt3_refpool_stream", sc_mt3_refpool, 1, 0 },
     { "copy2_mt_dst", sc_copy_cctx2, 0, 0 }, { "copy2_l19", sc_copy_cctx2, 1, 1 }, { "copy2_twice", sc_copy_cctx2, 2, 0 },
     { "train_r3_cover_dk", sc_train2, 0, 1 }, { "train_r3_cover_dk_mt3", sc_train2, 1, 1 }, { "train_r3_fastcover_d_mt3", sc_train2, 2, 1 }, { "train_r3_cover_split1", sc_train2, 3, 1 },
+    { "randx_0", sc_rand2, 0, 0 }, { "randx_1", sc_rand2, 1, 0 }, { "randx_2", sc_rand2, 2, 0 }, { "randx_3", sc_rand2, 3, 0 }, { "randx_4", sc_rand2, 4, 0 }, { "randx_5", sc_rand2, 5, 0 },
+    { "api_misc_compress", sc_api_misc, 0, 0 }, { "api_misc_decompress", sc_api_misc, 1, 0 },
     { "train_r3_legacy_small", sc_train2, 4, 0 }, { "train_r3_cover_tiny", sc_train2, 5, 0 }, { "train_r3_finalize_small", sc_train2, 6, 0 },
 };
 #define NSCEN ((int)(sizeof g_scen / sizeof *g_scen))
